@@ -107,11 +107,41 @@ Fixpoint since_close (ops : list op) (acc : list path) : list path :=
   | Vanish _ :: r => since_close r acc
   end.
 
+(* what has been written for destination p so far, from the operations alone: w truncates, a adds to what was written
+   before (the old file is joined at finalisation), r+ starts from the old file and overwrites from its beginning; a
+   close() forgets everything. None: nothing pending for p. Histories with a vanished temporary file are not judged. *)
+Fixpoint written_for (fs0 : fs) (ops : list op) (p : path) (cur : option bytes) : option bytes :=
+  match ops with
+  | [] => cur
+  | Close :: r => written_for fs0 r p None
+  | Vanish _ :: r => written_for fs0 r p cur
+  | Open q m d :: r =>
+      if path_eqb q p then
+        match cur with
+        | Some c => written_for fs0 r p (Some (apply_mode m c d))
+        | None =>
+            if registers m then
+              if m_plus m && m_r m then
+                match get fs0 p with
+                | Some c => written_for fs0 r p (Some (apply_mode m c d))
+                | None => written_for fs0 r p None
+                end
+              else written_for fs0 r p (Some (apply_mode m "" d))
+            else written_for fs0 r p None
+        end
+      else written_for fs0 r p cur
+  end.
+Definition has_vanish (ops : list op) : bool := existsb (fun o => match o with Vanish _ => true | _ => false end) ops.
+
 Definition prop (k : case) : bool :=
   match k with
   | CHist fs0 ops outs before dests f after nleft =>
       let D := map d_path dests in
       fs_eqb fs0 before                       (* destinations untouched until finalisation *)
+      && (has_vanish ops
+          || forallb (fun d => match written_for fs0 ops (d_path d) None with
+                               | Some c => String.eqb c (d_content d)
+                               | None => false end) dests)      (* what is pending for a destination is what was written for it *)
       && forallb (fun d => mem d (since_close ops [])) D      (* nothing discarded by close() is still queued *)
       && match f with
          | FWrite => (negb (noclashb D) || (final_okb fs0 dests after && preservedb fs0 D after)) && N.eqb nleft 0
